@@ -335,6 +335,13 @@ func (g *Gen) govOp() Step {
 		if g.P.Decay && g.chance(0.6) {
 			gs.Rate = pickStr(g, "0.99", "0.5", "1.01", "0.9", "1.2")
 			gs.Interval = int64([]time.Duration{time.Second, time.Minute, 5 * time.Minute, time.Hour}[g.pick(4)])
+			// half-configured decay (accepted by governance): rate 1 with an interval, or a rate with interval 0
+			switch g.pick(6) {
+			case 0:
+				gs.Rate = "1"
+			case 1:
+				gs.Interval = 0
+			}
 		}
 		if g.P.NoTake {
 			gs.Take = "0"
